@@ -1,4 +1,4 @@
-import TrionModel.Lemmas.SimpSound6
+import TrionModel.Lemmas.SimpSound7
 /-!
 # C08 — an expression's value does not depend on when its symbols become known
 
@@ -78,14 +78,6 @@ theorem eval_sound (lk : Bytes → Lookup) (isReg : Bytes → Bool) (ρ : Env) (
   have h2 := valC_sub_valZ ρ a' hw
   rw [h1] at h2; exact Option.some.inj h2
 
-/-- the environment a constant table denotes -/
-def envOf (lk : Bytes → Lookup) : Env := fun s => match lk s with | .found v => some v | _ => none
-
-theorem consistent_of_sub {lk lk' : Bytes → Lookup} (isReg : Bytes → Bool)
-    (h : ∀ s v, lk s = .found v → lk' s = .found v) : consistent lk isReg (envOf lk') := by
-  intro s v _ hs
-  simp [envOf, h s v hs]
-
 /-- C08.f  (`eval_commutes`)  Evaluate `a` while only the table `lk₁` is known, later evaluate the
 residual tree with `lk₂`: if that yields the number `v`, and evaluating `a` directly with a table
 `lk` that contains both yields the number `w`, then `v = w`. -/
@@ -122,6 +114,26 @@ theorem eval_const_is_value (lk : Bytes → Lookup) (isReg : Bytes → Bool) (hT
     (e : evaluate lk isReg a = .ok (ev, .const w)) : valC (envOf lk) a = some w :=
   evaluate_const_valC lk isReg (envOf lk) (consistent_of_sub isReg (fun _ _ h => h)) hT a ev w hlit e
 
+/-- C08.i  Constants defined *below* the statement in the same file: the first `evaluate` stops with
+`NoSuchVariable` and leaves a partly evaluated tree behind (`evaluateT … = .nosuch n a₁`; `evaluateT`
+is `evaluate` plus that tree, theorem `evaluateT_is_evaluate`); the retry on that tree with the complete
+table gives the same number as evaluating the original expression with the complete table. -/
+theorem retry_commutes (lk₁ lk : Bytes → Lookup) (isReg : Bytes → Bool)
+    (h₁ : ∀ s v, lk₁ s = .found v → lk s = .found v)
+    (hT : tableOk lk) (a : Arg) (hlit : litsOk a = true)
+    (n : Bytes) (ev₂ ev : Ev) (a₁ : Arg) (v w : Int)
+    (e₁ : evaluateT lk₁ isReg a = .nosuch n a₁)
+    (e₂ : evaluate lk isReg a₁ = .ok (ev₂, .const v))
+    (e : evaluate lk isReg a = .ok (ev, .const w)) : v = w := by
+  have hc := evaluate_const_valC lk isReg (envOf lk) (consistent_of_sub isReg (fun _ _ h => h)) hT a ev w hlit e
+  have hz := valC_sub_valZ _ a hc
+  have hz1 := evaluateT_nosuch_val lk₁ isReg (envOf lk) (consistent_of_sub isReg h₁) a n a₁ w e₁ hz
+  have hz2 := evaluate_val lk isReg (envOf lk) (consistent_of_sub isReg (fun _ _ h => h)) a₁ ev₂ (.const v) w e₂ hz1
+  simpa [valZ] using hz2
+
+theorem evaluateT_is_evaluate (lk : Bytes → Lookup) (isReg : Bytes → Bool) (a : Arg) :
+    (evaluateT lk isReg a).toERes = evaluate lk isReg a := (evaluateT_proj_both lk isReg).1 a
+
 /-! ### non-vacuity and the historic witnesses -/
 
 def x : Arg := .ident [120]
@@ -135,6 +147,12 @@ example :
     evaluate (tblX 10) (fun _ => false) (.bin .sub (.bin .add x (.const 5)) x) = .ok (⟨true, none⟩, .const 5) ∧
     evaluate (tblX 10) (fun _ => false) (.bin .sub (.bin .add x (.const 2)) (.bin .sub x (.const 3)))
       = .ok (⟨true, none⟩, .const 5) := ⟨rfl, rfl, rfl⟩
+
+/-- `retry_commutes` is exercised: `(2 + 3) * y + x` with only `y` known stops at `x` with `5 * y ↦ 20` done -/
+example :
+    evaluateT (fun s => if s = [121] then .found 4 else .notFound) (fun _ => false)
+      (.bin .add (.bin .mul (.bin .add (.const 2) (.const 3)) (.ident [121])) x)
+      = .nosuch [120] (.bin .add (.const 20) x) := rfl
 
 /-- F16 (repaired): `x % 1` is no longer rewritten to `x`; both orders give 0 for `x = 7` -/
 example :
